@@ -191,10 +191,10 @@ def is_reversed_polygon_group(g):
     return g['et'] == 0 and big and all(oc.area2(p) < 0 for p in big)
 
 
-def c07_locality_key(case):
+def c07_locality_key(case, diffs=None):
     if any(is_reversed_polygon_group(g) for g in case['groups']) and any(g['et'] != 0 for g in case['groups']):
         return 'offset.open-path-lost.reversed-polygon-group'
-    return oc.locality_key(case, None)
+    return oc.locality_key(case, diffs)
 
 
 def empty_path_ub(ctx, T):
